@@ -1,5 +1,6 @@
 #![allow(dead_code)]
 mod core;
+mod e2;
 mod gate;
 mod gen;
 mod props;
@@ -11,10 +12,14 @@ fn registry() -> Vec<PartDesc> {
     let mut v = vec![];
     v.push(desc::<props::c01::C01>("exploration"));
     v.push(desc::<props::c02::C02>("exploration"));
+    v.push(desc::<props::c07::C02E2>("exploration"));
     v.push(desc::<props::c03::C03>("exploration"));
     v.push(desc::<props::c04::C04>("fault_enumeration"));
     v.push(desc::<props::c05::C05>("exploration"));
     v.push(desc::<props::c06::C06>("exploration"));
+    v.push(desc::<props::c07::C07E1>("exploration"));
+    v.push(desc::<props::c07::C07E2>("exploration"));
+    v.push(desc::<props::c07::C07E2X>("exploration"));
     v.push(desc::<props::c09::C09>("exploration"));
     v.push(desc::<props::c12::C12>("exploration"));
     v.push(desc::<props::c08::C08>("fault_enumeration"));
